@@ -80,7 +80,8 @@ def deliveries(lines, tier):
             yield ("per-line@%d" % q, [p for p in parts if p])
 
 
-MODES = [("plain", None, None), ("fit8", 8, None), ("fit16", 16, None), ("count16", None, 16)]
+MODES = [("plain", None, None), ("fit8", 8, None), ("fit16", 16, None), ("count16", None, 16), ("count0", None, 0),
+         ("count-1", None, -1)]      # counting with c < 2 is documented as plain assembly: the third assemble mode's degenerate case
 # chunk sizes that do not divide the growth quantum: padding can then straddle a growth threshold, and every phase of the
 # instruction grid relative to the threshold is reached by prefixing 0..c-1 one-byte instructions
 PHASE_CHUNKS = (7, 14, 16, 24)
@@ -111,7 +112,7 @@ def hist(create, parts, fit, cnt, plan):
         ops.append("k%d" % fit)
     for p in parts:
         text = rle(p)
-        ops.append(("N%d:%s" % (cnt, text)) if cnt else ("A" + text))
+        ops.append(("N%d:%s" % (cnt, text)) if cnt is not None else ("A" + text))
         ops.append("G")
     ops.append("x")
     return "\t".join(ops)
@@ -131,7 +132,7 @@ def judge(total, parts, fit, cnt, obs, ref):
             disc.add("call-failed")
         if fa[1:3] != fr[1:3]:
             disc.add("return-or-offset-differs")
-        if cnt and fa[-1] != fr[-1]:
+        if cnt is not None and fa[-1] != fr[-1]:
             disc.add("count-differs")
     for g, r in zip(gi, gr):
         if g.split(":")[1:-1] != r.split(":")[1:-1]:
@@ -161,7 +162,7 @@ def run(tier, seed):
     rep = Report(PROP, tier, seed)
     rep.rule = ("programs `mov rax, V; ...; ret` whose total length takes EVERY value within +-40 bytes of 1x, 2x(, 3x) the growth "
                 "quantum (6000) and multiples of 97/970 below 19000; delivered in one call, in two calls split at every line "
-                "near each growth threshold, and one call per line near it; modes plain / fitting c=8,16 / counting c=16; plus chunk "
+                "near each growth threshold, and one call per line near it; modes plain / fitting c=8,16 / counting c=16, 0, -1; plus chunk "
                 "fitting with chunk sizes 7, 14, 16, 24 and a 10-byte instruction attempted at EVERY position from c+2 bytes before "
                 "to 2 bytes after the growth point (reached with a run of one-byte instructions), so that a padding straddles it; each run "
                 "twice: natural mremap and mremap FORCED TO MOVE the mapping (wrap seam; the old range disappears); oracle: every "
